@@ -291,6 +291,42 @@ def sql_varid(prog: Program) -> RuleResult:
             "the join target and its ON clause are chosen by mapped class alone: for two variables of the same class the table is joined to itself without an alias "
             "(SQLAlchemy raises InvalidRequestError, not an EQLTranslationError), and for a class and its base the ON clause compares a row with itself (no rows)",
         )
+    # (1b) the statement selects FROM the selected variable's table: the join starts there.  An equality between two variables none of which
+    #      is the selected one would join one of them with an ON clause over a table that is not in the statement.
+    anchor_vars = {t.id for n_ in cfg.nodes if isinstance(n_.stmt, ast.Assign) and any("selected_variable" in src(c_) for c_ in calls_in(n_.stmt)) for t in n_.stmt.targets if isinstance(t, ast.Name)}
+    for jc in joins:
+        jn = cfg.node_of(jc)
+        guard = None
+        for t in cfg.nodes:
+            if t.kind != "test" or not isinstance(t.stmt, ast.If) or not cfg.dominates(t.id, jn):
+                continue
+            tt = t.stmt.test
+            cmps = [x for x in ast.walk(tt) if isinstance(x, ast.Compare) and len(x.ops) == 1 and isinstance(x.ops[0], (ast.Is, ast.IsNot, ast.Eq, ast.NotEq)) and ({src(x.left), src(x.comparators[0])} & anchor_vars)]
+            others = sorted({(src(x.left) if src(x.comparators[0]) in anchor_vars else src(x.comparators[0])) for x in cmps})
+            raises = [x for b in t.stmt.body for x in ast.walk(b) if isinstance(x, ast.Raise) and x.exc is not None]
+            rejects = any(prog.is_subclass(j.module.resolve(x.exc.func if isinstance(x.exc, ast.Call) else x.exc) or "", err_base) for x in raises)
+
+            def ev_(e, val):
+                if isinstance(e, ast.BoolOp):
+                    vs = [ev_(v, val) for v in e.values]
+                    return None if any(v is None for v in vs) else (all(vs) if isinstance(e.op, ast.And) else any(vs))
+                if isinstance(e, ast.UnaryOp) and isinstance(e.op, ast.Not):
+                    v = ev_(e.operand, val)
+                    return None if v is None else not v
+                if e in cmps:
+                    o = src(e.left) if src(e.comparators[0]) in anchor_vars else src(e.comparators[0])
+                    same = val[o]
+                    return same if isinstance(e.ops[0], (ast.Is, ast.Eq)) else not same
+                return None
+
+            # the test holds exactly when neither side is the selected variable's table
+            table_ok = len(others) == 2 and all(ev_(tt, {others[0]: a_, others[1]: b_}) == (not a_ and not b_) for a_ in (False, True) for b_ in (False, True))
+            if table_ok and rejects and t.true_succ is not None and not cfg.dominates(t.true_succ, jn):
+                guard = t
+        r.check(per_variable_alias or guard is not None, f"{j.short}#one-side-is-selected", site(j, jc), src(jc)[:100],
+                "a pair of variables none of which is the selected one is rejected before the join is emitted",
+                "the join takes one variable for the selected one without checking: for entity(r, f.parent == p.child) the statement selects FROM r's table, joins one of the "
+                "two others and compares it with a table that is not in the statement (no rows instead of every r)")
     # (2) the equality is never lost: a path that reports "handled by a JOIN" (returns True) passes the join call; any other non-None
     #     result is the equality itself, and the caller hands it on as a condition
     rets = [n for n in cfg.nodes if isinstance(n.stmt, ast.Return) and n.stmt.value is not None and not (isinstance(n.stmt.value, ast.Constant) and n.stmt.value.value is None)]
